@@ -398,7 +398,9 @@ CFG = {
              "NBSP, \\v, \\f, control characters, lone surrogates) and a table of tricky texts; observed: error class or a deep "
              "structural dump (Reflect.ownKeys order, float bits, unit lists, prototype/descriptor sanity) plus "
              "JSON.stringify(JSON.parse(t)); about 1/3 JSON.stringify cases: generated values (index/string keys in any order, "
-             "holes, wrappers, -0, NaN, Infinity, BigInt, symbols, functions, undefined, cycles, toJSON family) x replacer "
+             "holes, wrappers, -0, NaN, Infinity, arbitrary doubles by bit pattern: integers in 2^53..2^64 with odd significand, "
+             "neighbours of 1e21 / 1e-6 / 1e-7 / 2^53, 17-significant-digit doubles, powers of two, subnormals, max double; "
+             "BigInt, symbols, functions, undefined, cycles, toJSON family) x replacer "
              "(none / allow-list / function family) x space (every legal form), observed: text or undefined or error class, "
              "JSON.parse of that text, Object.MarshalJSON; non-trivial = parse text of >= 3 units or a value containing an "
              "array/object; distinct = by hash of the case"),
@@ -414,8 +416,11 @@ CFG = {
         "coq/C19/Run.v: exact-integer test that goja's float bits are the correctly rounded value of the decimal; dump matcher; "
         "the lone-surrogate carve-out predicate lone_surrogate_input",
         "harness/cmd/c19 and its JS prelude (charCodeAt, Reflect.ownKeys, getOwnPropertyDescriptor run inside goja)",
-        "number formatting of non-integers belongs to C12: stringify values use quarter-integers below 2^53; numbers printed by "
-        "stringify(parse t) are checked only to be canonical JSON numbers that parse back to the same double",
+        "number tokens are compared EXACTLY: the model prints every double with property C12's executable Number::toString "
+        "specification (coq/C12/Model.v to_string, proved in coq/C12/Proofs.v), for stringify values, allow-list number entries, "
+        "Object.MarshalJSON and stringify(parse t); only for doubles with a binary exponent outside about [-320, 380] inside "
+        "stringify(parse t) the weaker test (canonical JSON number that parses back to the same double) is used, because evaluating "
+        "the shortest-digits specification there costs seconds per number (such doubles are still generated as stringify values, rarely)",
     ],
     "assumptions": [
         "the implementation is tied to the model only on the generated cases (correspondence), not by proof",
